@@ -65,6 +65,7 @@ type HarnessResult struct {
 	Labels       map[string]int `json:"labels"`
 	WallS        float64        `json:"wall_s"`
 	Queries      int64          `json:"queries"`
+	PanicChecks  int64          `json:"panic_site_checks"`
 	SolverS      float64        `json:"solver_s"`
 }
 
@@ -327,7 +328,7 @@ func (e *Engine) runOne(fn *ssa.Function, pkgPath string) HarnessResult {
 	e.reaches = nil
 	e.aborts = map[string]int{}
 	e.reachSeen = map[string]int{}
-	e.pathsDone, e.pathsInfeas, e.violations, e.stop = 0, 0, 0, 0
+	e.pathsDone, e.pathsInfeas, e.violations, e.stop, e.panicChecks = 0, 0, 0, 0, 0
 	q0, s0 := statQueries, statSolverNS
 	e.RunHarness(fn)
 	hr := HarnessResult{Harness: fn.Name(), Pkg: pkgPath, Paths: e.pathsDone, Infeasible: e.pathsInfeas, Aborts: e.aborts,
@@ -357,6 +358,7 @@ func (e *Engine) runOne(fn *ssa.Function, pkgPath string) HarnessResult {
 	}
 	hr.WallS = time.Since(t0).Seconds()
 	hr.Queries = statQueries - q0
+	hr.PanicChecks = e.panicChecks
 	hr.SolverS = float64(statSolverNS-s0) / 1e9
 	return hr
 }
